@@ -101,6 +101,15 @@ def run(tier, seed):
         # a presentation that does not fit: must fail, nothing to decode
         ser_cmds.append({"op": "so_ser", "id": len(ser_cmds), "schema": {"nodes": G}, "pres": {"p": "tuple", "es": [{"p": "fail"}]}})
         ser_meta.append((t, G, None))
+    # schemas holding a fixed whose size is beyond 32 bits, under values that never instantiate it: the header carries the fingerprint of
+    # THAT schema (a size reduced modulo 2^32 would give the fingerprint of another schema)
+    for big in (2 ** 32 + 8, 2 ** 31, 2 ** 63):
+        tb = scopes.rec("a.HB", [("a", scopes.arr(scopes.fixed("a.BigF", big))), ("u", scopes.un(scopes.prim("null"), scopes.ref("a.BigF"))), ("n", scopes.prim("long"))])
+        Gb = scopes.flatten(tb)["nodes"]
+        vb = {"t": "rec", "es": [{"t": "arr", "es": []}, {"t": "un", "b": 0, "x": {"t": "null"}}, {"t": "long", "v": pyavro.limbs(big % 1000)}]}
+        for via in (False, True):
+            ser_cmds.append({"op": "so_ser", "id": len(ser_cmds), "schema": {"nodes": Gb}, "pres": codec.canon_pres(Gb, 1, vb, "named"), "via_writer": via})
+            ser_meta.append((tb, Gb, vb))
     sobs = common.run_harness(ser_cmds)
     de_cmds, de_meta = [], []
     for c, (t, G, v), o in zip(ser_cmds, ser_meta, sobs):
